@@ -3,9 +3,8 @@
    Specification: Lang/RefSem.v (exec_program).  Models of the implementation: Lang/Prec.v (precedence
    ladder of expressions.go), Lower/Ops.v (operator lowering of compiler.go), Lower/ListEq.v (generated list
    equality), Lower/ForLoop.v (counting-loop lowering).
-   Status: prec_roundtrip FULL for the stated fragment; op lowering PARTIAL (one cell refuted: Byte durch
-   Kommazahl; the formerly ill-typed Zahl/Byte cells are repaired in /repo and proved), unary/conversion/zwischen
-   FULL, list equality REFUTED + partial;
+   Status: prec_roundtrip FULL for the stated fragment; op lowering, unary, conversion, zwischen FULL (all values);
+   list equality FULL for Zahlen Listen (Kommazahl lists are compared bitwise by the code: see KNOWN_FINDINGS);
    counting loop FULL for Zahl/Byte counters over abstract body/end-value evaluators.
    Whole-program preservation (DESIGN stage 4) is not proved: it is covered by the correspondence runs only. *)
 From Coq Require Import ZArith List Bool Lia String.
@@ -21,29 +20,21 @@ Proof. exact prec_roundtrip. Qed.
 Print Assumptions C01_prec_roundtrip.
 
 (* (b) operator lowering: for every scalar binary operator, all operand types and ALL operand values:
-   if RefSem defines the result (no guard) then the emitted LLVM operation computes exactly RefSem's value -
-   except Byte durch Kommazahl (refuted below; the full statement is this one without the div_byte_komma
-   hypothesis and becomes provable once c01_fix_1 is applied and Ops.lower_div is re-synchronised) *)
-Theorem C01_op_lowering_correct_partial :
+   if RefSem defines the result (no guard) then the emitted LLVM operation computes exactly RefSem's value.
+   (At the pinned commit Byte durch Kommazahl was refuted - sitofp, witness 200 als Byte durch 2,0 = -28 - and
+   the mixed Zahl/Byte cells were rejected by LLVM; repaired in /repo by 43c2135, 56bfc1a, 229b26f, 5ca8f5e.) *)
+Theorem C01_op_lowering_correct :
   forall (pow : Z -> Z -> Z) (log10 : Z -> Z) (op : binop) (a b v : value),
-    wf a -> wf b -> scalar_binop op = true -> div_byte_komma op a b = false ->
+    wf a -> wf b -> scalar_binop op = true ->
     RefSem.bin_op pow log10 op a b = ROk v ->
     Ops.lower_bin pow log10 op (repr a) (repr b) = LOk (repr v).
 Proof. exact bin_lowering_correct. Qed.
-Print Assumptions C01_op_lowering_correct_partial.
+Print Assumptions C01_op_lowering_correct.
 
 Example C01_op_lowering_nonvacuous :
-  wf (VZ (-7)) /\ wf (VB 200) /\ scalar_binop BMult = true /\ div_byte_komma BMult (VZ (-7)) (VB 200) = false /\
-  RefSem.bin_op (fun _ _ => 0) (fun _ => 0) BMult (VZ (-7)) (VB 200) = ROk (VZ (-1400)).
-Proof. repeat split; try (unfold wf, min64, max64; lia); reflexivity. Qed.
-
-(* the excluded cell is wrong on the current tree: 200 als Byte durch 2,0 is computed from -56 *)
-Theorem C01_op_lowering_div_byte_kommazahl_refuted :
-  forall (pow : Z -> Z -> Z) (log10 : Z -> Z),
-  exists a b v, wf a /\ wf b /\ RefSem.bin_op pow log10 BDiv a b = ROk v /\
-                Ops.lower_bin pow log10 BDiv (repr a) (repr b) <> LOk (repr v).
-Proof. exact div_byte_komma_refuted. Qed.
-Print Assumptions C01_op_lowering_div_byte_kommazahl_refuted.
+  wf (VB 200) /\ wf (VK two_f) /\ scalar_binop BDiv = true /\
+  RefSem.bin_op (fun _ _ => 0) (fun _ => 0) BDiv (VB 200) (VK two_f) = ROk (VK (f_of_Z 100)).
+Proof. repeat split; try (unfold wf, min64, max64; lia); vm_compute; reflexivity. Qed.
 
 Theorem C01_unary_lowering_correct :
   forall (op : unop) (a v : value),
@@ -78,16 +69,17 @@ Theorem C01_between_lowering_correct :
 Proof. exact between_lowering_correct. Qed.
 Print Assumptions C01_between_lowering_correct.
 
-(* equality of lists of primitives: memcmp bound as returning i1 *)
-Theorem C01_list_equality_lowering_refuted :
-  exists a b, value_eqb (VL TZahl (map VZ a)) (VL TZahl (map VZ b)) = Some false /\
-              lower_list_eq_zahl a b = true.
-Proof. exact list_eq_lowering_refuted. Qed.
-Print Assumptions C01_list_equality_lowering_refuted.
+(* equality of Zahlen Listen: the generated code (length test + memcmp == 0 on the element bytes) answers wahr
+   exactly for equal lists.  (At the pinned commit memcmp was bound as returning i1 and [1] gleich [3] was
+   wahr: refuted then, repaired by 6fc9b92.) *)
+Theorem C01_list_equality_lowering_correct :
+  forall a b, in_range a -> in_range b -> (lower_list_eq_zahl a b = true <-> a = b).
+Proof. exact list_eq_lowering_correct. Qed.
+Print Assumptions C01_list_equality_lowering_correct.
 
-Theorem C01_list_equality_lowering_partial : forall a, lower_list_eq_zahl a a = true.
-Proof. exact list_eq_lowering_partial. Qed.
-Print Assumptions C01_list_equality_lowering_partial.
+Example C01_list_equality_nonvacuous :
+  in_range [1] /\ in_range [3] /\ lower_list_eq_zahl [1] [3] = false.
+Proof. repeat split; try (repeat constructor; unfold min64, max64; lia); vm_compute; reflexivity. Qed.
 
 (* (c) counting loops: direction from the sign of the step, inclusive bound, hidden 64-bit index, Byte
    counter truncated from it - the lowered blocks refine the loop rule for every iteration count *)
